@@ -28,69 +28,139 @@ def _int_keys_dicts(tree):
             if ok and all(isinstance(v, str) for v in vals): yield n, dict(zip(keys, vals))
 
 
+def _check_table(d):
+    bad = [(e, s) for e, s in d.items() if e % 3 == 0 and e in SI and s not in SI[e]]
+    unknown = [(e, s) for e, s in d.items() if e % 3 == 0 and e not in SI and e != 0]
+    off = [(e, s) for e, s in d.items() if e % 3 != 0 and not (e, s) in ((-1, 'c'), (-2, 'c'), (1, 'da'), (2, 'h'), (-1, 'd'))]
+    ok = not bad and not unknown and not off
+    return ok, (f'{d}' if ok else f'wrong SI letter(s): {bad + unknown + off} in {d}')
+
+
+def _as_int_table(v):
+    """{int exponent: letter} of an evaluated dictionary term, else None"""
+    from ..terms import Poly as _P
+    if not isinstance(v, dict) or not v: return None
+    out = {}
+    for k, x in v.items():
+        kk = k.v if hasattr(k, 'v') else k
+        if isinstance(kk, _P) and kk.real_const() is not None and kk.real_const().denominator == 1: kk = int(kk.real_const())
+        if isinstance(kk, bool) or not isinstance(kk, int) or not isinstance(x, str): return None
+        out[kk] = x
+    return out
+
+
 def si_tables(prog):
-    """(key, ok, detail, site) for every prefix table literal of Utils.py and Display.py"""
+    """(key, ok, detail, site): the prefix tables IN USE -- the default table of each formatter class and the table every public display
+    helper hands to the formatter it builds (read off the evaluated records, wherever the table literal is written)"""
+    from ..terms import Evaluator, Rec, Opq, paths_of
+    from ..api import A
+    from ..prog import params_of
     out = []
     count = 0
-    for short in (UT, DSP):
-        m = prog.mod(short)
-        per_fn = {}
-        for n, d in _int_keys_dicts(m.tree):
-            count += 1
-            fn = None
-            for f in ast.walk(m.tree):
-                if isinstance(f, (ast.FunctionDef, ast.ClassDef)) and f.lineno <= n.lineno <= (f.end_lineno or f.lineno): fn = f.name if isinstance(f, ast.FunctionDef) or fn is None else fn
-            per_fn[fn] = per_fn.get(fn, 0) + 1
-            key = f'{short}:{fn}#{per_fn[fn]}'
-            bad = [(e, s) for e, s in d.items() if e % 3 == 0 and e in SI and s not in SI[e]]
-            unknown = [(e, s) for e, s in d.items() if e % 3 == 0 and e not in SI and e != 0]
-            off = [(e, s) for e, s in d.items() if e % 3 != 0 and not (e, s) in ((-1, 'c'), (-2, 'c'), (1, 'da'), (2, 'h'), (-1, 'd'))]
-            ok = not bad and not unknown and not off
-            detail = f'{d}' if ok else f'wrong SI letter(s): {bad + unknown + off} in {d}'
-            out.append((key, ok, detail, f'{m.rel}:{n.lineno}'))
-    if count < 10:
-        out.append(('tables:count', None, f'only {count} prefix tables found (13 confirmed)', ''))
+    um = prog.mod(UT)
+    for cname in ('ScientificFloat', 'ScientificComplex'):
+        c = um.defs.get(cname)
+        if not isinstance(c, ast.ClassDef):
+            out.append((f'default:{cname}', None, 'class not found', '')); continue
+        dv = next((f for f in prog.dataclass_fields(um, c) if f[0] == 'exp_prefixes'), None)
+        tab = _as_int_table(Evaluator(prog).ev(dv[1], {'__parent__': None}, dv[2], 1)) if dv and dv[1] is not None else None
+        if tab is None:
+            out.append((f'default:{cname}', None, 'default prefix table not evaluated', prog.site(um, c))); continue
+        ok, detail = _check_table(tab); count += 1
+        out.append((f'default:{cname}', ok, detail, prog.site(um, c)))
+    m = prog.mod(DSP)
+    for fname, fn in sorted(m.defs.items()):
+        if not isinstance(fn, ast.FunctionDef) or fname.startswith('_'): continue
+        ev = Evaluator(prog)
+        try:
+            t = ev.call_fn(fn, m, [A(p) for p in params_of(fn)[0]], {}, {'__parent__': None}, 1)
+        except Exception:
+            continue
+        recs = []
+        def find(x, d=0):
+            if d > 8: return
+            if isinstance(x, Rec) and x.cls in ('ScientificComplex', 'ScientificFloat'): recs.append(x)
+            if isinstance(x, Rec):
+                for v in x.f.values(): find(v, d + 1)
+            elif isinstance(x, Opq):
+                for v in x.k: find(v, d + 1)
+            elif isinstance(x, (list, tuple)):
+                for v in x: find(v, d + 1)
+        for _, leaf in paths_of(t): find(leaf)
+        tabs = []
+        for r in recs:
+            tb = _as_int_table(r.f.get('exp_prefixes'))
+            if tb is not None and tb not in tabs: tabs.append(tb)
+        for i, tb in enumerate(tabs):
+            ok, detail = _check_table(tb); count += 1
+            out.append((f'helper:{fname}' + (f'#{i + 1}' if len(tabs) > 1 else ''), ok, detail, f'{m.rel}:{fn.lineno}'))
+    if count < 8:
+        out.append(('tables:count', None, f'only {count} prefix tables in use were evaluated (13 confirmed)', ''))
     # units of the helpers
     m = prog.mod(DSP)
+    from ..terms import Evaluator, Rec, Opq, paths_of
+    from ..api import A, call
     for fname, unit in UNIT_OF.items():
         fn = m.defs.get(fname)
         if not isinstance(fn, ast.FunctionDef):
             out.append((f'unit:{fname}', None, 'helper not found', '')); continue
-        units = [k.value.value for n in ast.walk(fn) if isinstance(n, ast.Call) for k in n.keywords if k.arg == 'unit' and isinstance(k.value, ast.Constant)]
-        out.append((f'unit:{fname}', units == [unit], f'unit = {units}', f'{m.rel}:{fn.lineno}'))
+        # the value the helper formats: ScientificComplex / ScientificFloat record (however it is reached: directly or through a shared helper)
+        ev = Evaluator(prog)
+        from ..prog import params_of
+        t = ev.call_fn(fn, m, [A(p) for p in params_of(fn)[0]], {}, {'__parent__': None}, 1)
+        recs = []
+        def find(x, d=0):
+            if d > 6: return
+            if isinstance(x, Rec) and x.cls in ('ScientificComplex', 'ScientificFloat'): recs.append(x)
+            elif isinstance(x, Rec):
+                for v in x.f.values(): find(v, d + 1)
+            elif isinstance(x, Opq):
+                for v in x.k: find(v, d + 1)
+            elif isinstance(x, (list, tuple)):
+                for v in x: find(v, d + 1)
+        for _, leaf in paths_of(t): find(leaf)
+        units = sorted({r.f.get('unit') for r in recs if isinstance(r.f.get('unit'), str)})
+        ok = (units == [unit]) if recs and all(isinstance(r.f.get('unit'), str) for r in recs) else None
+        out.append((f'unit:{fname}', ok, f'unit = {units}', f'{m.rel}:{fn.lineno}'))
     return out
 
 
 def polar_rule(prog):
-    """(key, verdict, detail, site): in polar mode the angle is left out only under a test on the angle itself"""
+    """(key, verdict, detail, site): in polar mode the angle is left out only under a test on the angle itself.  Read off the decision tree of
+    __str__ with self.polar fixed to True: leaves whose text lacks the angle glyph are the suppressing paths; their path conditions may
+    mention the angle (and the deg flag) only."""
+    from ..terms import paths_of as _po, Opq as _Opq
     m = prog.mod(UT); cls = m.defs.get('ScientificComplex')
     out = []
     if not isinstance(cls, ast.ClassDef): return [('polar', None, 'ScientificComplex not found', '')]
     mem = prog.find_member(m, cls, '__str__')
     fn = mem[1]; site = prog.site(mem[0], fn)
-    polar_ifs = [n for n in ast.walk(fn) if isinstance(n, ast.If) and ast.unparse(n.test) == 'self.polar']
-    if not polar_ifs: return [('polar', None, 'no `if self.polar` branch found', site)]
-    sup = []
-    for n in ast.walk(polar_ifs[0]):
-        if isinstance(n, ast.If) and n is not polar_ifs[0] and n.body and isinstance(n.body[-1], ast.Return):
-            r = ast.unparse(n.body[-1].value) if n.body[-1].value is not None else ''
-            if '∠' not in r and 'angle' not in r: sup.append(n)
-    if not sup: return [('polar', None, 'no angle-suppressing branch found', site)]
-    helpers = {x.name: x for x in cls.body if isinstance(x, ast.FunctionDef)}
-    for i, n in enumerate(sup):
+    ev = Evaluator(prog); ev.self_class = (m, cls)
+    ev.stores[('self', 'polar')] = True
+    t = ev.call_fn(fn, mem[0], [A('self')], {}, {'__parent__': None}, 1)
+    paths = _po(t)
+    def has_angle(leaf):
+        r = repr(tkey(leaf))
+        return '∠' in r and "('.', 'self', 'angle')" in r
+    sup = [(pc, l) for pc, l in paths if not has_angle(l)]
+    shown = [(pc, l) for pc, l in paths if has_angle(l)]
+    if not shown: return [('polar', None, f'no path of the polar rendering shows the angle: {t!r:.120}', site)]
+    if not sup: return [('polar', None, 'no angle-suppressing path found', site)]
+    import re
+    for i, (pc, leaf) in enumerate(sup):
         reads = set()
-        def collect(t, depth=0):
-            for a in ast.walk(t):
-                if isinstance(a, ast.Attribute) and isinstance(a.value, ast.Name) and a.value.id == 'self':
-                    if a.attr in helpers and a.attr not in ('angle',) and depth < 3 and prog.is_property(helpers[a.attr]):
-                        collect(helpers[a.attr], depth + 1)          # a helper property: look at what IT reads
-                    else: reads.add(a.attr)
-        collect(n.test)
-        ok = reads <= {'angle', 'deg'}
-        out.append((f'polar:suppress#{i}', ok, f"angle omitted under `{ast.unparse(n.test)[:70]}` which reads self.{sorted(reads)}" + ('' if ok else
+        for g, _ in pc:
+            reads |= set(re.findall(r"\('\.', 'self', '(\w+)'\)", g))
+        ok = reads <= {'angle', 'deg'} and bool(reads)
+        out.append((f'polar:suppress#{i}', ok, f"angle omitted under a test that reads self.{sorted(reads)}" + ('' if ok else
                     ' -- the test is not a test on the angle: a phase near ±pi (negative real quantity) is printed as a bare positive magnitude'), site))
-    a = helpers.get('angle')
-    oka = a is not None and 'np.angle(self.value, deg=self.deg)' in ast.unparse(a)
+    a = prog.find_member(m, cls, 'angle')
+    oka = None
+    if a:
+        ev2 = Evaluator(prog)
+        ta = ev2.call_fn(a[1], a[0], [A('self')], {}, {'__parent__': None}, 1)
+        r = repr(tkey(ta))
+        oka = "'angle'" in r and "('.', 'self', 'value')" in r and "('.', 'self', 'deg')" in r
     out.append(('polar:angle', oka, 'angle = np.angle(value, deg=self.deg)', site))
     return out
 
@@ -132,28 +202,35 @@ def run(rep, prog, tier):
         for prop, part, neg, pos in (('real_sign', 'real', '- ', ''), ('imag_sign', 'imag', ' - ', ' + ')):
             mem = prog.find_member(m, cls, prop)
             fn = mem[1]
-            ev = Evaluator(prog)
+            ev = Evaluator(prog); ev.self_class = (m, cls)
             t = ev.call_fn(fn, mem[0], [A('self')], {}, {'__parent__': None}, 1)
             sp = spec(ev, f"(({pos!r} if self.value.{part} >= 0 else {neg!r}).strip() if self.compact else ({pos!r} if self.value.{part} >= 0 else {neg!r}))", {'self': A('self')}, m)
             rep.ob('R18.glyph', prop, compare_terms(t, sp), f"{prop} = {t!r:.160}", prog.site(mem[0], fn), lhs=t, rhs=sp)
         for prop, want in (('real', 'abs(self.value.real)'), ('imag', 'abs(self.value.imag)'), ('abs', 'abs(self.value)')):
             mem = prog.find_member(m, cls, prop)
-            from ..prog import returned_expr
-            rv = returned_expr(mem[1])
-            a0 = ast.unparse(rv.args[0]) if isinstance(rv, ast.Call) and rv.args else None
-            rep.ob('R18.glyph', f'magnitude:{prop}', a0 == want, f'rendered from {a0}', prog.site(mem[0], mem[1]))
+            ev = Evaluator(prog); ev.self_class = (m, cls)
+            t = ev.call_fn(mem[1], mem[0], [A('self')], {}, {'__parent__': None}, 1)
+            sp = spec(ev, want, {'self': A('self')}, m)
+            from ..terms import Rec as _Rec, term_equal as _te, has_opaque as _ho
+            got = t.f.get('value') if isinstance(t, _Rec) else None
+            rep.ob('R18.glyph', f'magnitude:{prop}', True if (got is not None and _te(got, sp)) else (None if got is None or _ho(got) else False), f'rendered from {got!r:.80}', prog.site(mem[0], mem[1]))
     else:
         rep.ob('R18.glyph', 'ScientificComplex', None, 'class not found')
-    # ---- saturation first
+    # ---- saturation first: when value3.is_inf holds, __str__ yields the infinity glyph (signed by the mantissa) on every path
     cls = m.defs.get('ScientificFloat')
     if isinstance(cls, ast.ClassDef):
         mem = prog.find_member(m, cls, '__str__')
         fn = mem[1]
-        stmts = [st for st in fn.body if not (isinstance(st, ast.Expr) and isinstance(st.value, ast.Constant))]
-        first = stmts[0] if stmts else None
-        ok = (isinstance(first, ast.If) and 'is_inf' in ast.unparse(first.test) and first.body and isinstance(first.body[-1], ast.Return)
-              and '∞' in ast.unparse(ast.Module(body=first.body, type_ignores=[])))
-        rep.ob('R18.inf', '__str__:saturation-first', ok, f'first statement: {ast.unparse(first)[:80] if first is not None else None}', prog.site(mem[0], fn))
+        ev = Evaluator(prog); ev.self_class = (m, cls)
+        v3 = A('v3')
+        ev.stores[('self', 'value3')] = v3
+        ev.add_fact(ev.getattr(v3, 'is_inf', m, 0), '!=0')
+        t = ev.call_fn(fn, mem[0], [A('self')], {}, {'__parent__': None}, 1)
+        from ..terms import paths_of as _po
+        leaves = [l for _, l in _po(t)]
+        ok = bool(leaves) and all(isinstance(l, str) and l in ('∞', '-∞') for l in leaves) and {'∞', '-∞'} <= set(leaves)
+        rep.ob('R18.inf', '__str__:saturation-first', True if ok else (None if any('?' in repr(tkey(l)) for l in leaves if not isinstance(l, str)) else False),
+               f'with value3.is_inf the rendering is {t!r:.120}', prog.site(mem[0], fn))
     fp = m.defs.get('FloatPrecision')
     if isinstance(fp, ast.ClassDef):
         ev = Evaluator(prog)
@@ -169,6 +246,15 @@ def run(rep, prog, tier):
     sf = m.defs.get('ScientificFloat')
     mem = prog.find_member(m, sf, 'value3') if isinstance(sf, ast.ClassDef) else None
     if mem:
-        src = ast.unparse(mem[1]).replace(' ', '')
-        ok = 'min_exp=min(self.exp_prefixes.keys())' in src and 'max_exp=max(self.exp_prefixes.keys())' in src
-        rep.ob('R18.inf', 'limits-from-table', ok, 'min_exp / max_exp are the smallest / largest key of the prefix table', prog.site(mem[0], mem[1]))
+        from ..terms import Rec as _Rec, term_equal as _te
+        ev = Evaluator(prog); ev.self_class = (m, sf); ev.opaque_classes |= {'Float3'}
+        ev.stores[('self', 'use_exp_prefix')] = True
+        t = ev.call_fn(mem[1], mem[0], [A('self')], {}, {'__parent__': None}, 1)
+        at = t.as_atom() if isinstance(t, Poly) else None
+        ok = None
+        if isinstance(at, tuple) and at[:2] == ('call', ('cls', 'Float3')):
+            kw = dict(at[3])
+            lo = spec(ev, "min(self.exp_prefixes.keys())", {'self': A('self')}, m); hi = spec(ev, "max(self.exp_prefixes.keys())", {'self': A('self')}, m)
+            lo2 = spec(ev, "min(self.exp_prefixes)", {'self': A('self')}, m); hi2 = spec(ev, "max(self.exp_prefixes)", {'self': A('self')}, m)
+            ok = kw.get('min_exp') in (tkey(lo), tkey(lo2)) and kw.get('max_exp') in (tkey(hi), tkey(hi2))
+        rep.ob('R18.inf', 'limits-from-table', ok, 'min_exp / max_exp are the smallest / largest key of the prefix table' if ok else f'value3 = {t!r:.160}', prog.site(mem[0], mem[1]))
